@@ -28,6 +28,29 @@ pub struct Case {
     pub delete: u8,
     pub reopens: u8,
     pub queries: Vec<QGen>,
+    /// a crowd of further authors: (size class, shape). The number of (document, author) pairs is taken from around 1000,
+    /// 1024 and 2048 (`CROWD_SIZES`), spread round-robin over the documents; every pair gets two or three entries whose
+    /// newest one sits at the smallest, the greatest or a middle key depending on the shape
+    #[serde(default)]
+    pub crowd: Option<(u8, u8)>,
+}
+
+const CROWD_SIZES: [usize; 8] = [1000, 1023, 1024, 1025, 1030, 2047, 2048, 2049];
+
+fn crowd_author(j: usize) -> iroh_docs::Author {
+    iroh_docs::Author::from_bytes(blake3::hash(format!("crowd-author-{j}").as_bytes()).as_bytes())
+}
+
+fn crowd_entries(ns: &iroh_docs::NamespaceSecret, a: &iroh_docs::Author, shape: u8, i: usize) -> Vec<SignedEntry> {
+    let rec = |k: &[u8], t: u64, c: u8| {
+        let (hash, len) = content(c);
+        SignedEntry::from_parts(ns, a, k, iroh_docs::sync::Record::new(hash, len, T0 + t))
+    };
+    match if shape % 4 == 3 { (i % 3) as u8 } else { shape % 4 } {
+        0 => vec![rec(b"a", 5, 1), rec(b"b", 1, 2)],
+        1 => vec![rec(b"a", 1, 1), rec(b"b", 5, 2)],
+        _ => vec![rec(b"a", 2, 1), rec(b"b", 4, 0), rec(b"c", 3, 3)],
+    }
 }
 
 fn qgen_by_key() -> impl Strategy<Value = QGen> {
@@ -141,8 +164,9 @@ impl Prop for C18 {
             (prop_oneof![1 => Just(0u8), 3 => Just(1u8), 3 => Just(2u8), 3 => Just(3u8)], prop::bool::weighted(0.35)).prop_map(|(d, old)| if old { d | 4 } else { d }),
             0u8..=3,
             vec(qgen_by_key(), 1..=12),
+            prop::option::weighted(0.0025, (0u8..8, 0u8..4)),
         )
-            .prop_map(|(pools, docs, entries, with_settings, delete, reopens, queries)| Case {
+            .prop_map(|(pools, docs, entries, with_settings, delete, reopens, queries, crowd)| Case {
                 pools,
                 docs,
                 entries,
@@ -150,6 +174,7 @@ impl Prop for C18 {
                 delete,
                 reopens,
                 queries,
+                crowd,
             })
             .boxed()
     }
@@ -167,6 +192,14 @@ impl Prop for C18 {
             for (d, e) in &c.entries {
                 let d = (*d % c.docs) as usize;
                 per_doc[d].push(sign(namespace(d as u8), &to_espec(e, &authors, &keys)));
+            }
+            if let Some((class, shape)) = c.crowd {
+                let n = CROWD_SIZES[class as usize % CROWD_SIZES.len()];
+                for i in 0..n {
+                    let d = i % c.docs as usize;
+                    per_doc[d].extend(crowd_entries(namespace(d as u8), &crowd_author(i / c.docs as usize), shape, i));
+                }
+                o.class("crowd(>=1000-document-author-pairs)");
             }
             for d in 0..c.docs as usize {
                 if populate(&ctx.rt, &mut store, namespace(d as u8), &per_doc[d]).is_err() {
